@@ -175,6 +175,9 @@ func (V *Verifier) runTop(fn *ssa.Function, key string, fs *FuncSpec, cands map[
 		if lockMode {
 			X.balanceObligation(fr, r)
 		}
+		if !X.LockOnly {
+			X.frameObligations(fr, fs, r)
+		}
 	}
 	if !probe {
 		// vacuity guards: precondition satisfiable, some return reachable
@@ -509,6 +512,150 @@ func (V *Verifier) attachReplayTerms(X *Exec, key string, res *FuncResult) {
 				o.ValNames = append(append([]string{}, okNames...), o.AuxNames...)
 				o.Prefer = prefer
 			}
+		}
+	}
+}
+
+// frameObligations: a contract with an explicit `modifies` list (or `pure`) promises its callers that nothing else
+// changes. That promise is checked here, at every return: every heap component equals its entry value except at the
+// locations the list names (objects that did not exist at entry are free). A contract WITHOUT a modifies list makes no
+// such promise: its callers havoc everything (see applyContract).
+type frameAllow struct {
+	whole bool
+	idxs  []*Term
+}
+
+// frameActive: is the frame of the function under verification checked?
+func (X *Exec) frameActive() bool {
+	fs := X.TopSpec
+	if fs == nil || fs.ModAll || (len(fs.Modifies) == 0 && !fs.Pure) || X.LockOnly {
+		return false
+	}
+	for _, cs := range fs.Callsites {
+		if cs.Skip || cs.Havoc {
+			return false
+		}
+	}
+	return true
+}
+
+// frameInfo: per heap component, the locations (as terms over the entry state) the modifies list lets change.
+func (X *Exec) frameInfo() map[string]*frameAllow {
+	if X.frameAllowed != nil {
+		return X.frameAllowed
+	}
+	fr, fs := X.TopFrame, X.TopSpec
+	out := map[string]*frameAllow{}
+	X.frameAllowed = out
+	S := X.Entry.Clone()
+	sc := X.clauseCtx(fr, X.Entry, fr.ParamEntry, "modifies of "+X.TopKey)
+	sc.Fr = &Frame{Fn: fr.Fn, Free: fr.Free, Cells: map[*ssa.Alloc]*Cell{}, Regs: map[ssa.Value]*Val{}}
+	sc.Old = X.Entry
+	for _, loc := range fs.Modifies {
+		before := map[string]*Term{}
+		for n, t := range S.Heaps {
+			before[n] = t
+		}
+		X.havocLoc(sc, S, loc)
+		for n, t := range S.Heaps {
+			b, had := before[n]
+			if had && b == t {
+				continue
+			}
+			srt := X.heapSorts[n]
+			if srt == nil {
+				continue
+			}
+			base := b
+			if !had {
+				base = X.heap(X.Entry, n, srt)
+			}
+			fa := out[n]
+			if fa == nil {
+				fa = &frameAllow{}
+				out[n] = fa
+			}
+			if t.Op == "store" && t.Args[0] == base {
+				fa.idxs = append(fa.idxs, t.Args[1])
+			} else {
+				fa.whole = true
+			}
+			S.Heaps[n] = base // keep the simulation on entry terms
+		}
+	}
+	return out
+}
+
+func frameHeapName(n string) bool {
+	return !(n == AllocHeap || strings.HasPrefix(n, "LK|") || strings.HasPrefix(n, "GH|") || strings.HasPrefix(n, "IT|") || n == "GM|maxalloc" || n == "GM|maxmake")
+}
+
+// frameGoal: component n in state st equals its entry value outside the allowed locations (objects that did not exist
+// at entry are free). nil = nothing to show.
+func (X *Exec) frameGoal(st *State, n string) *Term {
+	ts := X.E.TS
+	srt := X.heapSorts[n]
+	if srt == nil || srt.Elem == nil || !frameHeapName(n) {
+		return nil
+	}
+	fa := X.frameInfo()[n]
+	if fa != nil && fa.whole {
+		return nil
+	}
+	f := X.heap(st, n, srt)
+	e := X.heap(X.Entry, n, srt)
+	if f == e {
+		return nil
+	}
+	if srt.Idx == SInt && !strings.HasPrefix(n, "GM|") && !strings.HasPrefix(n, "GV|") {
+		allocPre := X.heap(X.Entry, AllocHeap, ArraySort(SInt, SBool))
+		i := ts.BoundVar("fr", SInt)
+		hyp := []*Term{ts.Select(allocPre, i)}
+		if fa != nil {
+			for _, ix := range fa.idxs {
+				hyp = append(hyp, ts.Not(ts.Eq(i, ix)))
+			}
+		}
+		return ts.Forall([]*Term{i}, ts.Implies(ts.And(hyp...), ts.Eq(ts.Select(f, i), ts.Select(e, i))), []*Term{ts.Select(f, i)})
+	}
+	if fa != nil && len(fa.idxs) > 0 && srt.Idx != nil {
+		i := ts.BoundVar("fr", srt.Idx)
+		var hyp []*Term
+		for _, ix := range fa.idxs {
+			hyp = append(hyp, ts.Not(ts.Eq(i, ix)))
+		}
+		return ts.Forall([]*Term{i}, ts.Implies(ts.And(hyp...), ts.Eq(ts.Select(f, i), ts.Select(e, i))), []*Term{ts.Select(f, i)})
+	}
+	return ts.Eq(f, e)
+}
+
+func (X *Exec) frameObligations(fr *Frame, fs *FuncSpec, r *retRec) {
+	if fs == nil || fs.ModAll || (len(fs.Modifies) == 0 && !fs.Pure) {
+		return
+	}
+	if !X.frameActive() {
+		// effects of skipped calls are not executed: the frame of this contract cannot be checked here
+		X.UsedTrusted["frame (modifies list) of "+X.TopKey+" assumed: it has call sites marked skip/havoc"]++
+		return
+	}
+	fin := r.St
+	var names []string
+	seen := map[string]bool{}
+	for n := range fin.Heaps {
+		names = append(names, n)
+		seen[n] = true
+	}
+	if fin.Epoch != X.Entry.Epoch {
+		for n := range X.heapSorts {
+			if !seen[n] {
+				names = append(names, n)
+			}
+		}
+	}
+	sort.Strings(names)
+	for _, n := range names {
+		if g := X.frameGoal(fin, n); g != nil {
+			X.oblige(fin, "frame", "", "nothing outside the modifies list changes: "+n, r.Pos, g)
 		}
 	}
 }
